@@ -36,7 +36,10 @@ RULE = ("scripts of 3-14 records (ids 0..; byte lengths 0..1.5*maxSize resp. 0..
         "{-1,0,1,2,3}, gzip on/off (compress = rule.gzip in 90%), delimiters '-','.','_','--','log', file names with "
         "0-2 dots; directories pre-seeded with 0-6 backup-like files (stamps around the script's range, .gz or plain), "
         "decoy names and sometimes a pre-existing current file; clean-up phases released at scripted points with a "
-        "scripted boundary date; non-trivial = at least two rotations, or one rotation and a clean-up that removed a file; "
+        "scripted boundary date; every third case submits the records through the logx writer front-end instead "
+        "(concreteWriter.Info on the RotateLogger as newFileWriter wires it, or NewWriter(rotateLogger); JSON and plain "
+        "encodings) in bursts of 1-14 records while the writer goroutine is parked, and files are compared line by line with "
+        "the lines handed to RotateLogger.Write; non-trivial = at least two rotations, or one rotation and a clean-up that removed a file; "
         "distinct = distinct canonical case JSON")
 TRUSTED = ["os / filepath.Glob / sort.Strings / compress/gzip and time.Format of the Go standard library (modelled: "
            "directory as a finite map, single-* glob on glob-safe names, byte-wise string order, gzip as a layer count)",
@@ -44,7 +47,9 @@ TRUSTED = ["os / filepath.Glob / sort.Strings / compress/gzip and time.Format of
            "clock strings are substituted for the wall-clock string (dates in the past; the size rule's boundary keeps the "
            "wall-clock time of day and is reported as an observation)",
            "the two phases of postRotate (compress; glob+remove) are treated as atomic steps"]
-ASSUMPTIONS = ["delimiter non-empty (with an empty delimiter the pattern matches the current file: Props.c19_empty_delimiter_refuted)",
+ASSUMPTIONS = ["front-end stream: a record is its encoded line; the model assumes the queued slice is what the worker writes "
+               "(checked, not assumed, by spec_ok: each accepted line exactly once, complete, in order)",
+               "delimiter non-empty (with an empty delimiter the pattern matches the current file: Props.c19_empty_delimiter_refuted)",
                "clock strings of fixed width and no clock string chosen for two backup names (rotations at least a second apart / "
                "the date never repeats); hyp label in input_distribution",
                "a pre-existing current log file is a plain file; file names are glob-safe and the directory path is clean",
@@ -157,8 +162,58 @@ def _one(rng, tier):
             "events": events, "endb": endb}
 
 
+def _front(rng, tier):
+    """second stream: the same scripts submitted through the logx writer front-end, in bursts while the
+    worker is parked; seeds are line files (record length >= 5)"""
+    c = _one(rng, tier)
+    c["front"] = {"enc": rng.choice(["json", "plain"]), "wire": rng.choice(["file", "file", "new"])}
+    if c["kind"] == "size" and c["maxsize"] > 0:
+        c["maxsize"] = rng.choice([60, 100, 150, 200, 400])      # encoded lines are 40-120 bytes
+    for sd in c["seeds"]:
+        sd["recs"] = [[r[0], r[1] + 5] for r in sd["recs"]]
+    evs, burst = [], []
+    for e in c["events"]:
+        if "w" in e:
+            burst.append(e["w"])
+            if rng.random() < 0.35:
+                evs.append({"b": burst} if len(burst) > 1 else {"w": burst[0]})
+                burst = []
+        else:
+            if burst:
+                evs.append({"b": burst} if len(burst) > 1 else {"w": burst[0]})
+                burst = []
+            evs.append(e)
+    if burst:
+        evs.append({"b": burst} if len(burst) > 1 else {"w": burst[0]})
+    c["events"] = evs
+    return c
+
+
 def generate(rng, tier, n):
-    return [_one(rng, tier) for _ in range(n)]
+    return [_front(rng, tier) if i % 3 == 2 else _one(rng, tier) for i in range(n)]
+
+
+def _writes(case):
+    out = []
+    for e in case["events"]:
+        if "w" in e:
+            out.append(e["w"])
+        elif "b" in e:
+            out.extend(e["b"])
+    return out
+
+
+def classify(case, obs):
+    """known-finding classes (see KNOWN_FINDINGS.txt): RotateLogger.Write retains the caller's slice; the plain
+    encoding (fmt.Fprint) and NewWriter (log.Logger) hand it pooled buffers that are reused before the worker writes"""
+    fr = case.get("front")
+    if fr and (fr["enc"] == "plain" or fr["wire"] == "new") and all(a[2] == 1 for a in obs.get("accepted", [])):
+        files = list(obs.get("final", [])) + [f for l in obs.get("log", []) if l.get("d") for f in l["d"]["outs"]]
+        seen = [r[0] for f in files for r in f["runs"]]
+        ids = [w[0] for w in _writes(case)]
+        if any(i < 0 for i in seen) or any(seen.count(i) != 1 for i in ids):
+            return "front-pooled-buffer-retained"
+    return None
 
 
 def search(rng, problems):
@@ -182,6 +237,13 @@ def search(rng, problems):
                     "rot0": "2020-01-06", "now0": "2020-01-06",
                     "events": [{"w": [0, 5, "2020-01-06"]}, {"w": [1, 6, "2020-01-07"]}, {"d": "2020-01-05"}, {"w": [2, 7, "2020-01-08"]}],
                     "endb": "2020-01-06"})
+    for enc in ("json", "plain"):
+        for wire in ("file", "new"):
+            out.append({"kind": "daily", "file": "access.log", "delim": "-", "days": 0, "gzip": False, "compress": False,
+                        "maxsize": 0, "maxbackups": 0, "seeds": [], "rot0": "2020-01-05", "now0": "2020-01-05",
+                        "front": {"enc": enc, "wire": wire},
+                        "events": [{"b": [[0, 5, "2020-01-05"], [1, 9, "2020-01-05"], [2, 3, "2020-01-06"]]},
+                                   {"w": [3, 4, "2020-01-06"]}], "endb": "2020-01-06"})
     return out
 
 
@@ -204,8 +266,15 @@ def encode(case, obs):
     seeds = clist([_file(s["name"], s["recs"], s["gz"]) for s in case["seeds"]])
     if "log" not in obs or "final" not in obs:
         # driver failure: an empty observation falsifies both checkers
-        return "mkcase %s %s %s %s [] []" % (_cfg(case), seeds, _nm(case["rot0"]), _nm(case["now0"]))
-    writes = [e["w"] for e in case["events"] if "w" in e]
+        return "mkcase %s %s %s %s [] [] false" % (_cfg(case), seeds, _nm(case["rot0"]), _nm(case["now0"]))
+    writes = [list(w) for w in _writes(case)]
+    front_ok = True
+    if case.get("front"):
+        # the byte length of a record is the length of its encoded line, observed where the front-end hands it over
+        acc = obs.get("accepted", [])
+        front_ok = len(acc) == len(writes) and all(a[0] == w[0] and a[2] == 1 for a, w in zip(acc, writes))
+        for a, w in zip(acc, writes):
+            w[1] = a[1]
     evs = []
     for e in obs["log"]:
         if e.get("d") is not None:
@@ -218,7 +287,7 @@ def encode(case, obs):
             w = writes[e["w"]]
             evs.append("XWrite (mkrec %s %s) %s" % (cnat(w[0]), cZ(w[1]), _nm(w[2])))
     final = clist([_file(f["name"], f["runs"], f["gz"]) for f in obs["final"]])
-    return "mkcase %s %s %s %s %s %s" % (_cfg(case), seeds, _nm(case["rot0"]), _nm(case["now0"]), clist(evs), final)
+    return "mkcase %s %s %s %s %s %s %s" % (_cfg(case), seeds, _nm(case["rot0"]), _nm(case["now0"]), clist(evs), final, cbool(front_ok))
 
 
 def _removed(obs):
@@ -238,10 +307,15 @@ def bucket(case, obs):
     out.append("removed=%d" % min(rm, 5))
     if any(s["name"] == case["file"] for s in case["seeds"]):
         out.append("preexisting-current")
-    if any(e.get("w") and e["w"][1] == 0 for e in case["events"]):
+    if any(w[1] == 0 for w in _writes(case)):
         out.append("zero-length-record")
+    if case.get("front"):
+        out.append("front:%s/%s" % (case["front"]["enc"], case["front"]["wire"]))
+        out.append("front-burst=%d" % min(6, max([len(e["b"]) for e in case["events"] if "b" in e] + [1])))
+    else:
+        out.append("direct-write")
     chosen = [case["now0"]]
-    ws = [e["w"] for e in case["events"] if "w" in e]
+    ws = _writes(case)
     for l in obs.get("log", []):
         if l.get("w") is not None and l.get("rot"):
             chosen.append(ws[l["w"]][2])
@@ -252,7 +326,8 @@ def bucket(case, obs):
 
 
 def explain(case, obs):
-    return ("observed directory contents contradict C19.Exec.spec_ok: a processed record is missing, duplicated, truncated or "
+    return ("observed directory contents contradict C19.Exec.spec_ok: a processed record is missing, duplicated, truncated, garbled "
+            "(front-end stream: a line in a file that is none of the lines handed to RotateLogger.Write shows as id -1) or "
             "out of order across current file + backups + files removed by clean-up (c19_no_loss_no_dup_in_order), or a file "
             "written under the size rule exceeds maxSize by more than its single record (c19_size_overshoot), or clean-up named "
             "a file that is not an outdated backup / removed one of the newest backups / the current file (c19_outdated_sound, "
